@@ -137,13 +137,22 @@ def load_known():
         return json.load(fh)
 
 
+def prop_of(finding):
+    p = finding.get("property")
+    return p if isinstance(p, list) else [p]
+
+
 def matches(finding, viol, prop):
     m = finding.get("match", {})
-    if finding.get("property") != prop:
+    if prop not in prop_of(finding):
         return False
     if "kinds" in m and viol["kind"] not in m["kinds"]:
         return False
-    if "cfg_prefix" in m and not viol["cfg"].startswith(m["cfg_prefix"]):
+    if "cfg_prefix" in m and m["cfg_prefix"] not in viol["cfg"]:  # substring match (the driver does the same)
+        return False
+    if "variant_prefix" in m and not viol.get("variant", "prod").startswith(m["variant_prefix"]):
+        return False
+    if "weak_only" in m and not viol.get("weak"):
         return False
     if m.get("harness") and viol.get("harness") != m["harness"]:
         return False
@@ -247,7 +256,7 @@ def main():
     violations = []
     regress = {"fixed_replayed": 0, "open_replayed": 0}
     for f in known.get("fixed", []):
-        if f.get("property") != prop or not f.get("replay"):
+        if prop not in prop_of(f) or not f.get("replay"):
             continue
         path = os.path.join(VERIF, f["replay"])
         res, err = run_replay_file(path)
@@ -257,7 +266,7 @@ def main():
         elif res["violations"]:
             violations.append({"kind": res["expected"], "message": "regression: fixed finding %s fails again" % f.get("id"), "replay": path, "cfg": "", "harness": ""})
     for f in known.get("open", []):
-        if f.get("property") != prop:
+        if prop not in prop_of(f):
             continue
         still = None
         if f.get("replay"):
@@ -291,7 +300,7 @@ def main():
             for k, v in j.get("params", {}).items():
                 cmd += ["--param", "%s=%d" % (k, v)]
             for f in known.get("open", []):
-                if f.get("property") == prop and f.get("match", {}).get("harness", "") in ("", j["harness"]):
+                if prop in prop_of(f) and f.get("match", {}).get("harness", "") in ("", j["harness"]) and (not f["match"].get("weak_only") or j.get("weak")):
                     for kind in f["match"].get("kinds", []):
                         cmd += ["--known", "%s:%s" % (kind, f["match"].get("cfg_prefix", ""))]
             tasks.append((ji, w, cmd, out))
@@ -349,6 +358,8 @@ def main():
             fps.update((d["_job"], x) for x in a)
         for v in d.get("violations", []):
             v["harness"] = d["harness"]
+            v["weak"] = bool(jobs[d["_job"]].get("weak"))
+            v["variant"] = jobs[d["_job"]].get("variant", "prod")
             violations.append(v)
 
     # ---- classify violations against the known-findings file
